@@ -18,7 +18,7 @@ func init() {
 	})
 	register(&Prop{
 		ID: "C15",
-		Rules: []*Rule{rReport, rReverse, rFuncName, scoped(rWalkMulti, "the report visitor", func(_ *core.Ctx, k string) bool { return strings.Contains(k, "visitAllMulti") }), rStackSlot, rStackParse, scoped(rStackEmpty, "the frame parser", func(_ *core.Ctx, k string) bool { return strings.Contains(k, "parsePrintedStack:") }), scoped(rOneParser, "GetReportableStackTrace", func(_ *core.Ctx, k string) bool { return containsAny(k, "GetReportableStackTrace", "convertPkgStack") }), rEffectReport, {Name: "R-TAINT/S5", Doc: "the S5 sub-class of R-TAINT: provenance of every value written into the Sentry message, exceptions and extras", Run: func(c *core.Ctx) { runTaintFiltered(c, func(s *Sink) bool { return s.Class == "S5" }) }},
+		Rules: []*Rule{rReport, rReverse, rFuncName, rIndexFound, scoped(rWalkMulti, "the report visitor", func(_ *core.Ctx, k string) bool { return strings.Contains(k, "visitAllMulti") }), rStackSlot, rStackParse, scoped(rStackEmpty, "the frame parser", func(_ *core.Ctx, k string) bool { return strings.Contains(k, "parsePrintedStack:") }), scoped(rOneParser, "GetReportableStackTrace", func(_ *core.Ctx, k string) bool { return containsAny(k, "GetReportableStackTrace", "convertPkgStack") }), rEffectReport, {Name: "R-TAINT/S5", Doc: "the S5 sub-class of R-TAINT: provenance of every value written into the Sentry message, exceptions and extras", Run: func(c *core.Ctx) { runTaintFiltered(c, func(s *Sink) bool { return s.Class == "S5" }) }},
 			{Name: "R-LOOP-EXITS", Doc: rLoopExits.Doc, Run: func(c *core.Ctx) { runLoopExits(c, map[string]bool{"report.visitAllMulti": true}) }}},
 		Explain: "Decides: nil gives (nil, nil); the layer walk visits every node of the tree; stacks and safe details are collected in lock-step per node; every exception's module is the error's domain; the message is laid out source location / redacted verbose rendering / composition; the 'error types' extra is the per-layer buffer; the stack re-parsing covers the same type keys as the one-line source; provenance of every event field (S5). " +
 			"NOT decided: counting/ordering relations over runtime lists (exactly one exception per stack, one type line per layer).",
@@ -36,7 +36,7 @@ func init() {
 	})
 	register(&Prop{
 		ID: "C19",
-		Rules: []*Rule{scoped(rOrder, "the hint/detail/link/tag/safe-detail accessors", func(_ *core.Ctx, k string) bool { return !strings.Contains(k, "GetOneLineSource") }), rHintProviders, rDedup, rFlattenSep, rGuardField, scoped(rAlwaysWraps, "the hint/detail/link/key/tag/safe-detail constructors", func(_ *core.Ctx, k string) bool {
+		Rules: []*Rule{scoped(rOrder, "the hint/detail/link/tag/safe-detail accessors", func(_ *core.Ctx, k string) bool { return !strings.Contains(k, "GetOneLineSource") }), rHintProviders, rDedup, rFlattenSep, rGuardField, scoped(rFormatStored, "the hint and detail constructors", func(_ *core.Ctx, k string) bool { return containsAny(k, "Hint", "Detail", "printf-like") }), scoped(rAlwaysWraps, "the hint/detail/link/key/tag/safe-detail constructors", func(_ *core.Ctx, k string) bool {
 			return containsAny(k, "WithHint", "WithDetail", "WithIssueLink", "WithTelemetry", "WithContextTags", "WithSafeDetails", "UnimplementedError")
 		}), scoped(rStdIdentity, "the accessor packages", func(_ *core.Ctx, k string) bool {
 			return containsAny(k, "hintdetail.", "issuelink.", "telemetrykeys.", "contexttags.", "safedetails.", "errbase.GetAllSafeDetails")
@@ -49,7 +49,7 @@ func init() {
 	})
 	register(&Prop{
 		ID: "C12",
-		Rules: []*Rule{rRetain, rErrRefs, rHideKeep, rLoopAlias, scoped(rStdIdentity, "formatting and reporting code", func(_ *core.Ctx, k string) bool {
+		Rules: []*Rule{rRetain, rErrRefs, rHideKeep, rLoopAlias, rAlwaysWraps, scoped(rStdIdentity, "formatting and reporting code", func(_ *core.Ctx, k string) bool {
 			return containsAny(k, "errutil.", "errbase.", "report.", "withstack.", "safedetails.", "barriers.", "secondary.")
 		}), scoped(rCodec, "clauses A4-A6: every safe-carrying field is written, restored and read", func(_ *core.Ctx, k string) bool { return containsAny(k, "] A4 ", "] A5 ", "] A6 ") })},
 		Explain: "Decides that every input the library declares PII-free reaches a SAFE position (redact format string, redact.Safe argument, or a field handed out by SafeDetails()/printed as Safe) through every forwarding layer - so it is not redacted away; that captured error arguments are attached as secondary errors on every path; that content behind barriers/secondary errors is folded into SafeDetails() and printed; and (R-CODEC) that those fields have wire-slot agreement so they are still there after a hop. " +
@@ -65,7 +65,7 @@ func init() {
 	})
 	register(&Prop{
 		ID:    "C11",
-		Rules: []*Rule{rCodec, rPayloadDecoder, rRegType, rErrnoTable, rStackSlot, rStackParse, rStackEmpty, rTreeRec, rOneParser, rSiblingGuard, rCodeGetter},
+		Rules: []*Rule{rCodec, rPayloadDecoder, rGenericPath, rRegType, rErrnoTable, rStackSlot, rStackWhole, rStackParse, rStackEmpty, rTreeRec, rOneParser, rSiblingGuard, rCodeGetter},
 		Explain: "Decides, for every registered type key, that each annotation field has a wire slot that the writer fills from that same field and the reader restores into that same field (payload members, positional safe details, message), that decoders rebuild the key's own type (so flag types recognised by Go type survive), that errno predicates travel in matching pairs, and that the printed-stack slot is re-parsed for the same key set by both stack accessors. " +
 			"NOT decided: equality of re-parsed frames (text parsing), tag values rendered through ValueStr, OS predicates on foreign platforms beyond the pairing.",
 		Trusted: []string{"go/ssa", "gogo/protobuf marshalling of the payload messages"},
@@ -118,7 +118,7 @@ func init() {
 	})
 	register(&Prop{
 		ID: "C14",
-		Rules: []*Rule{rProtocol, rWrapDual, rStdIdentity, rUnwrapAll, rWalkCurrent, scoped(rWalkMulti, "Is, IsAny, As", func(_ *core.Ctx, k string) bool {
+		Rules: []*Rule{rProtocol, rWrapDual, rStdIdentity, rUnwrapAll, rWalkCurrent, rCmpGuard, scoped(rWalkMulti, "Is, IsAny, As", func(_ *core.Ctx, k string) bool {
 			return containsAny(k, "markers.Is", "errutil.As", "is a leaf for UnwrapOnce")
 		}), forwardScoped("Is", "IsAny", "As", "If", "HasType", "HasInterface", "Unwrap", "UnwrapOnce", "UnwrapAll", "UnwrapMulti", "Cause")},
 		Explain: "Decides the structural side of drop-in compatibility: the library probes exactly the standard protocol methods (Is/As/Unwrap/Unwrap []error/Cause) with their exact signatures and precedence; every library wrapper implements both Cause() and Unwrap() over the same field so stdlib and pkg/errors traverse library chains; Is/As recurse into multi-cause branches in order; the root API forwards to the right implementation with parameters in order. " +
@@ -129,7 +129,7 @@ func init() {
 		ID: "C13",
 		Rules: []*Rule{rWalkMulti, rTreeRec, scoped(rOpaque, "the causes of multi-cause nodes", func(_ *core.Ctx, k string) bool {
 			return containsAny(k, "causes", "MultierrorCauses", "opaqueLeafCauses")
-		}), rOwnedBranches, rLoopAlias, scoped(rFmtDelegate, "the multi-cause types (their own Format must hand the whole node to the dispatcher)", func(_ *core.Ctx, k string) bool { return containsAny(k, "opaqueLeafCauses", "joinError", "Causes") }), {Name: "R-LOOP-EXITS", Doc: rLoopExits.Doc, Run: func(c *core.Ctx) {
+		}), rOwnedBranches, rLoopAlias, rJoinNode, scoped(rShape, "the multi-cause types: Error() and the formatter render the same, live, branch texts", func(_ *core.Ctx, k string) bool { return containsAny(k, "join", "Causes") }), scoped(rFmtDelegate, "the multi-cause types (their own Format must hand the whole node to the dispatcher)", func(_ *core.Ctx, k string) bool { return containsAny(k, "opaqueLeafCauses", "joinError", "Causes") }), {Name: "R-LOOP-EXITS", Doc: rLoopExits.Doc, Run: func(c *core.Ctx) {
 			runLoopExits(c, map[string]bool{"markers.Is": true, "markers.IsAny": true, "report.visitAllMulti": true})
 		}}},
 		Explain: "Decides that every tree walker (Is, IsAny, As, formatter, report visitor, encoder) applies itself to each branch of every chain node's UnwrapMulti in forward order, and that multi-cause types are leaves for Unwrap/UnwrapOnce. " +
@@ -138,7 +138,7 @@ func init() {
 	})
 	register(&Prop{
 		ID:    "C09",
-		Rules: []*Rule{rFmtDelegate, rShape, rDetailPrint, rVerbDispatch, rGuardField, rSep, rStateFlags, rSpecialText},
+		Rules: []*Rule{rFmtDelegate, rShape, rDetailPrint, rVerbDispatch, rGuardField, rSep, rStateFlags, rSpecialText, scoped(rCodec, "clause A2: details that a decoder reads by position are written at fixed positions, so each wrapper's own detail lands in its own field (and is printed under its own label) after a hop", func(_ *core.Ctx, k string) bool { return strings.Contains(k, "] A2 ") })},
 		Explain: "Decides the code-level reasons the verbs are mutually consistent: every instantiated library type routes Format through the single dispatcher FormatError; Error() and the detail formatter of each type agree on the message shape (so %v/%s = Error() at every depth); each wrapper's annotation fields reach a Print inside the detail region. " +
 			"NOT decided: width/precision/flag rendering (delegated to fmt), entry numbering/indentation and the 'Error types' line (loop arithmetic over runtime lists), comparison with reference renderings.",
 		Trusted: []string{"go/ssa", "fmt and redact formatting semantics"},
@@ -164,14 +164,14 @@ func init() {
 	})
 	register(&Prop{
 		ID:    "C10",
-		Rules: []*Rule{rNil, rShape, rWrapDual, rCtorCause, rAlwaysWraps, scoped(rWalkCurrent, "Is, IsAny, If, As and the accessors", nil), rFormatArg, rFmtPath, forwardScoped("New*", "Wrap*", "With*", "Errorf", "Handled*", "Opaque", "Mark", "CombineErrors", "Join*", "AssertionFailed*", "NewAssertionErrorWithWrappedErrf", "HandleAsAssertionFailure*", "UnimplementedError*")},
+		Rules: []*Rule{rNil, rShape, rWrapDual, rCtorCause, rAlwaysWraps, rFormatStored, scoped(rWalkCurrent, "Is, IsAny, If, As and the accessors", nil), scoped(rWalkMulti, "Is, IsAny, As: every layer of the chain looks into its branches, so a match inside a branch survives any wrapper", func(_ *core.Ctx, k string) bool { return containsAny(k, "markers.Is", "errutil.As") }), rFormatArg, rFmtPath, forwardScoped("New*", "Wrap*", "With*", "Errorf", "Handled*", "Opaque", "Mark", "CombineErrors", "Join*", "AssertionFailed*", "NewAssertionErrorWithWrappedErrf", "HandleAsAssertionFailure*", "UnimplementedError*")},
 		Explain: "Decides the nil clauses of the property for every exported constructor on every path (nilness abstract interpretation, no execution). " +
 			"NOT decided: equality of Error() strings with the compositional model, 'Join of only nils = nil' (a count over runtime arguments).",
 		Trusted: []string{"go/ssa", "nilness lattice with branch refinement; unknown callees are Top"},
 	})
 	register(&Prop{
 		ID:    "C05",
-		Rules: []*Rule{rAssertOK, rBounds, rNilField, rDecodeNonNil, rTypedNil, rEnumTotal, rUnmarshalOK},
+		Rules: []*Rule{rAssertOK, rBounds, rNilField, rDecodeNonNil, rTypedNil, rEnumTotal, rUnmarshalOK, scoped(rOpaque, "the opaque arms of encodeLeaf/encodeWrapper: a received opaque value is re-emitted from its stored fields and never handed to a registered encoder (whose type assertion would panic)", func(_ *core.Ctx, k string) bool { return strings.Contains(k, "re-emits") })},
 		Explain: "Decides, for every site in /repo's hand-written source, structural necessary conditions of 'DecodeError and the decoded error's methods never panic': " +
 			"no unchecked type assertion on wire-controlled values (R-ASSERT-OK). " +
 			"NOT decided: panics inside dependencies (gogo/protobuf UnmarshalAny, grpc status), arbitrary fuzzed bytes, and panic classes other than failed type assertions, out-of-range indexing and nil dereference of decoder-built fields.",
@@ -232,7 +232,7 @@ func codecFieldScope(c *core.Ctx, k string, identity bool) bool {
 		return true
 	}
 	clause := rest[0]
-	if clause == "A1" || clause == "A3" {
+	if clause == "A1" || clause == "A3" || clause == "A9" {
 		return true
 	}
 	if len(rest) < 2 {
